@@ -2,6 +2,7 @@
 # tools/selftest_parallel.py [-j N] [pattern]: every seeded change is applied to its own scratch worktree of /repo (under /tmp,
 # removed afterwards), the quick check of its property runs against that worktree (VERIF_REPO), and the outcome is recorded in
 # seeded/RESULTS.json: DETECTED / MISSED / N-A (patch no longer applies or does not build) / INFRA.  /repo itself is not touched.
+# VERIF_ROOT=<copy of /verif> runs the checks from a frozen copy (so that /verif can be edited meanwhile).
 import concurrent.futures
 import glob
 import json
@@ -32,7 +33,7 @@ def one(d):
         r = subprocess.run(["go", "build", "./..."], cwd=wt, env=ENV, capture_output=True, text=True)
         if r.returncode != 0:
             return name, "N-A (does not build)"
-        r = subprocess.run(["/verif/check", pid, "quick"], env=dict(ENV, VERIF_REPO=wt), capture_output=True, text=True)
+        r = subprocess.run([os.path.join(os.environ.get("VERIF_ROOT", "/verif"), "check"), pid, "quick"], env=dict(ENV, VERIF_REPO=wt), capture_output=True, text=True)
         out = r.stdout + r.stderr
         if r.returncode == 1 and "VIOLATION" in out:
             return name, "DETECTED"
@@ -60,7 +61,7 @@ def main():
             res[name] = v
             print(name, v, flush=True)
             json.dump(res, open(rp, "w"), indent=1, sort_keys=True)
-    subprocess.run("find /verif/replay -name '*.json' -delete", shell=True)
+    subprocess.run("find %s/replay -name '*.json' -delete" % os.environ.get("VERIF_ROOT", "/verif"), shell=True)
 
 
 if __name__ == "__main__":
